@@ -1,6 +1,54 @@
-"""C20 - no resource leaks, and clean shutdown at any moment (DESIGN §5 C20)"""
-import json, vlib, pmcheck
+"""C20 - no resource leaks, and clean shutdown at any moment (DESIGN §5 C20).
+   proof gate (Properties/C20.v: descriptor ledger of the whole-daemon model) + R-SIM (every pass of every recorded run: open
+   descriptors and live children of the real daemon = Daemon.open_fds / Daemon.children of the replayed model state) + the
+   implementation-side monitors (quiescent ledger, clean `return 0`, nothing left open, no child left)."""
+import json, os
+import vlib, pmcheck, pmsim, C04
+
+
+def mon_alive_or_sigterm(sess, sc):
+    """like pmcheck.mon_alive, but a scenario that sends SIGTERM itself must end in a clean `return 0` at that point"""
+    if not sc.tags.get("sigterm"):
+        return pmcheck.mon_alive(sess, sc)
+    f = sess.final or sess.sim.done or {}
+    if f.get("kind") != "return" or f.get("status") != 0:
+        return [("shutdown", "teardown:%s" % f.get("kind"), "SIGTERM during the script did not lead to a clean `return 0`: %s | stderr: %s" % (f, sess.stderr()[-400:]))]
+    bad = []
+    if f.get("leaks"): bad.append(("shutdown", "open-descriptors", "left open at exit: %s" % f["leaks"]))
+    if f.get("kids"): bad.append(("shutdown", "children", "%d children neither killed nor reaped at exit" % f["kids"]))
+    return bad
+
+
+pmcheck.MONITORS["alive-or-sigterm"] = mon_alive_or_sigterm
+
+
 def run(ctx, V):
-    pmcheck.standard_run(ctx, V, ["alive", "c20"], n_quick=600)
+    proofs_ok = vlib.proof_gate(ctx, V, extract=["Extract/ExDaemon.vo", "Extract/ExEnqueue.vo"])
+    exe = pmsim.build(ctx)
+    n = 400 if ctx.tier == "quick" else 8000
+    C04.rsim(ctx, V, exe, n, styles=("faults", "mixed", "healthy", "faults"), prefix="c20", monitors=("alive-or-sigterm", "c20"), gen=gen)
+
+
+def gen(rng, style="mixed"):
+    """scenarios with many short client sessions, abrupt client drops, device failures and reconnections, and a SIGTERM at a random point"""
+    sc = pmcheck.gen_scenario(rng, style=style)
+    S = sc.script
+    ncli = sc.tags["ncli"]
+    # abrupt ends of clients at random positions
+    for k in range(ncli):
+        if rng.random() < 0.35:
+            pos = rng.randint(2 * ncli, len(S))
+            S.insert(pos, ("raw", [rng.choice(["EOF c%d", "RST c%d", "FULLCLOSE c%d"]) % k]))
+    # extra short-lived sessions
+    for j in range(rng.choice([0, 1, 2, 3])):
+        k = sc.tags["ncli"]; sc.tags["ncli"] = k + 1
+        pos = rng.randint(0, len(S))
+        S[pos:pos] = [("connect",), ("wait", k), ("send", k, rng.choice([b"nodes\r\n", b"status\r\n", b"device\r\n", b"help\r\n"])), ("wait", k),
+                      rng.choice([("send", k, b"quit\r\n"), ("raw", ["EOF c%d" % k]), ("raw", ["RST c%d" % k])])]
+    if rng.random() < 0.3:
+        S.insert(rng.randint(0, len(S)), ("raw", ["SIG TERM"])); sc.tags["sigterm"] = True
+    return sc
+
+
 def replay(ctx, V, path):
     print(json.dumps(json.load(open(path)), indent=1)[:6000]); return 0
